@@ -59,5 +59,14 @@ func init() {
 			Old: "\trw.respUDPSize = opt.UDPSize()\n", New: "", Why: "decoded branch leaves the advertised size zero"},
 		{ID: "c05-reserve-misses-keepalive", File: "middleware/edns/wire.go", Expect: "C05-R8",
 			Old: "\tif w.keepalive {\n\t\tlength += wire.OPTOptionHdrLen + 2\n\t}\n", New: "", Why: "appended keepalive outgrows the lease reserve"},
+		// R10 / R11 (round 2)
+		{ID: "c05-servewire-size-floor-lost", File: "middleware/edns/edns.go", Expect: "C05-R10",
+			Old: "size := min(max(int(req.UDPSize()), dns.MinMsgSize), dnsutil.DefaultMsgSize)", New: "size := min(int(req.UDPSize()), dnsutil.DefaultMsgSize)", Why: "wire branch no longer floors the advertised size at 512 while SetEdns0 still does: sub-512 OPT sizes truncate on one path only"},
+		{ID: "c05-setedns0-ceiling-differs", File: "internal/dnsutil/helpers.go", Expect: "C05-R10",
+			Old: "\t\tif size > DefaultMsgSize {\n\t\t\tsize = DefaultMsgSize\n\t\t}", New: "\t\tif size > 4096 {\n\t\t\tsize = 4096\n\t\t}", Why: "decoded branch honours up to 4096 where the wire branch stops at 1232"},
+		{ID: "c05-ecs-scope-unvalidated", File: "middleware/request.go", Expect: "C05-R11",
+			Old: "if netmask > 32 || scope > 32 {", New: "if netmask > 32 {", Why: "strict admission takes an ECS option whose scope the library's unpack rejects: silent drop instead of FORMERR"},
+		{ID: "c05-ecs-family0-any-netmask", File: "middleware/request.go", Expect: "C05-R11",
+			Old: "\t\t\t\tif netmask != 0 {\n\t\t\t\t\treturn false\n\t\t\t\t}\n", New: "", Why: "family 0 with a non-zero netmask admitted; the library refuses it"},
 	})
 }
